@@ -1064,15 +1064,17 @@ fn class_and_random(cx: &mut Ctx, n_rand: usize, full_cache: &[u8]) {
     for p in [None, Some(0u16), Some(1), Some(65534), Some(65535)] {
         inc_event(cx, p, "class");
     }
-    // add_node on a loaded registry: ordinary numbers always; numbers and counts at the edge of u16 (a suspected
-    // overflow of the unchanged tree, see the report) only when VERIF_ENABLE_ADDNODE_U16 is set
+    // add_node on a loaded registry: ordinary numbers, and numbers and counts at the edge of u16 (the unchanged tree
+    // overflowed there: fixed in /repo by ee54c19, known_findings.json C17-add-node-u16-overflow)
     for (number, count, ports) in [(1u16, None, None), (7, Some(2), Some("12000-12001")), (1, Some(1), Some("65535")), (65533, Some(1), None)] {
         add_node_event(cx, number, count, ports, "class");
     }
+    for (number, count, ports) in [(65535u16, None, None), (65534, Some(1), None), (65534, Some(2), None), (65535, Some(0), None), (65535, Some(65535), None)] {
+        add_node_event(cx, number, count, ports, "class");
+    }
+    // (a batch of 65535 services is only run on request: it installs 65535 simulated services)
     if std::env::var("VERIF_ENABLE_ADDNODE_U16").is_ok_and(|v| !v.is_empty() && v != "0") {
-        for (number, count, ports) in [(65535u16, None, None), (65534, Some(1), None), (65534, Some(2), None), (1, Some(65535), Some("1-65535")), (65535, Some(65535), None)] {
-            add_node_event(cx, number, count, ports, "class");
-        }
+        add_node_event(cx, 1, Some(65535), Some("1-65535"), "class");
     }
     // ANT_PEERS: lists of 0-4 items, each a word of one or two multiaddress segments
     {
